@@ -33,6 +33,7 @@ def nontrivial(per):
 
 
 import re as _re
+_SGR = _re.compile('\x1b\\[[\x20-\x3f]*m')
 _CSI_NON_SGR = _re.compile('\x1b\\[[0-9;]*[A-LN-Za-ln-z]')
 
 
@@ -58,6 +59,17 @@ def eval_roundtrip(case):
         if any(ids_[k] != ids_[m_.start()] for k in range(m_.start(), m_.end())):
             o.skipped = 'style-change-inside-embedded-control-sequence'
             return o
+    if case.get('csi'):
+        r0 = v.to_str(None, False, False, False)
+        removed = 0
+        offs = []
+        for m_ in _SGR.finditer(r0):
+            offs.append(m_.start() - removed)
+            removed += m_.end() - m_.start()
+        for m_ in _CSI_NON_SGR.finditer(t):
+            if any(m_.start() < x < m_.end() for x in offs):
+                o.skipped = 'style-change-inside-embedded-control-sequence'
+                return o
     sty = styles(per)
     r = str(v)
     for cls in (AnsiString, AnsiStr):
